@@ -256,12 +256,79 @@ def api_paths(job, G, names, N, cfg):
     return out
 
 
+def run_c10(job):
+    """trainable zero-order-hold delay d vs the same system with a static delay d recorded in the graph"""
+    import distrax
+    aw.LOG_ENABLED[0] = False
+    cfg = job["cfg"]; names = sorted(cfg["nodes"]); tc = job["trainable"]      # connection key
+    cc = cfg["conns"][tc]; mn, mx = job["min"], job["max"]
+    res = dict(id=job["id"], runs={})
+
+    class P(aw.Probe):
+        override = {}
+        def init_delays(self, rng=None, graph_state=None):
+            d = super().init_delays(rng, graph_state)
+            for k in list(d):
+                if (self.name, k) in P.override: d[k] = P.override[(self.name, k)]
+            return d
+
+    def mk(delay_dist_for_tc):
+        N = {}
+        for n, nd in cfg["nodes"].items():
+            N[n] = P(name=n, rate=64 // nd["period"], delay=nd["exp"] * T, delay_dist=aw.TableDist.create(nd["delays"]), nid=nd["nid"])
+        for c, c_ in cfg["conns"].items():
+            dd = delay_dist_for_tc if c == tc else aw.TableDist.create(c_["delays"])
+            N[c_["in"]].connect(N[c_["out"]], blocking=False, delay=c_["exp"] * T, delay_dist=dd, window=c_["window"], skip=c_["skip"], jitter=const.Jitter.LATEST)
+        return N
+    tdist = base.TrainableDist.create(delay=mn * T, min=mn * T, max=mx * T, interp="zoh")
+    NT = mk(tdist)
+    cg = generate_graphs(NT, job["tmax"] * T, rng=jax.random.PRNGKey(job.get("seed", 0)), num_episodes=1)
+    res["raw"] = dict(zip(("verts", "edges"), extract_graph(cg, 0)))
+    mode = MODES[job.get("mode", "MCS")]
+    GT = Graph(NT, NT[cfg["sup"]], cg, supergraph=mode, prune=True, progress_bar=False)
+    rollT = jax.jit(GT.rollout)
+    def record_of(G, roll, rng):
+        gs = G.init(rng); gs = G.init_record(gs, rng=False, inputs=True, state=True, output=True)
+        out = roll(gs); return canon_compiled_record(cfg, out.aux["record"])
+    for d in job["delays"]:
+        r = dict()
+        # (a) trainable, delay given through init_delays (values outside [min, max] must saturate)
+        P.override = {(cc["in"], cc["out"]): d * T}
+        try:
+            r["trainable"] = record_of(GT, rollT, jax.random.PRNGKey(1))
+        except Exception as ex:  # noqa
+            r["trainable_error"] = f"{type(ex).__name__}:{str(ex)[:200]}"
+        P.override = {}
+        # (a') trainable, delay given through the distribution itself (only inside [min, max]: create() asserts the range)
+        if mn <= d <= mx and job.get("via_dist", True):
+            gs = GT.init(jax.random.PRNGKey(1))
+            inp = gs.inputs[cc["in"]][cc["out"]]
+            nd_ = base.TrainableDist.create(delay=d * T, min=mn * T, max=mx * T, interp="zoh")
+            nd_ = nd_.replace(alpha=jnp.asarray(nd_.alpha, dtype=jnp.float32))   # init_record needs array leaves
+            gs = gs.replace(inputs=gs.inputs.copy({cc["in"]: gs.inputs[cc["in"]].copy({cc["out"]: inp.replace(delay_dist=nd_)})}))
+            gs = GT.init_record(gs, rng=False, inputs=True, state=True, output=True)
+            r["trainable_dist"] = canon_compiled_record(cfg, rollT(gs).aux["record"])
+        # (b) static: the edge of that connection regenerated at Deterministic(clip(d))
+        dc = min(max(d, mn), mx)
+        NS = mk(base.StaticDist.create(distrax.Deterministic(loc=dc * T)))
+        edges = {k: v for k, v in cg.edges.items() if k != (cc["out"], cc["in"])}
+        cgs = augment_graphs(base.Graph(vertices=cg.vertices, edges=edges), NS, rng=jax.random.PRNGKey(job.get("seed", 0)))
+        try:
+            GS = Graph(NS, NS[cfg["sup"]], cgs, supergraph=mode, prune=True, progress_bar=False)
+            r["static"] = record_of(GS, jax.jit(GS.rollout), jax.random.PRNGKey(1))
+            r["static_edge"] = extract_graph(cgs, 0)[1][tc]
+        except Exception as ex:  # noqa
+            r["static_error"] = f"{type(ex).__name__}:{str(ex)[:200]}"
+        res["runs"][str(d)] = r
+    return res
+
+
 def main():
     jobs = json.load(open(sys.argv[1])); out = open(sys.argv[2], "a")
     for job in jobs:
         out.write(json.dumps(dict(id=job["id"], started=True)) + "\n"); out.flush()
         try:
-            res = run_job(job)
+            res = run_c10(job) if job.get("kind") == "c10" else run_job(job)
         except RecursionError:
             res = dict(id=job["id"], error="RecursionError")
         except Exception as e:  # noqa
